@@ -74,6 +74,7 @@ func c07(p *core.Prog, r *core.Report) {
 	// (canClose): a count that is not decremented exactly once per finished
 	// relayed call keeps the connection in a closing state forever.
 	r.Rule("C07-R7", "E6 who-may-call/paths", 6, "relay pending count (drain predicate input) is balanced")
+	channelTracksOnlyOpen(p, r, "C07-R5")
 	r.Alias("C09-R3", "C07-R7")
 	c09Pending(p, r)
 	r.Alias("C09-R3", "")
